@@ -1,0 +1,21 @@
+//go:build verif
+
+package optionreflect
+
+// Contracts for contract-based verification (/verif, property C14): the order in which options are
+// printed is a function of the options themselves - source line when both have one, otherwise the
+// declaration index of the option field - never of the order the reflection Range delivered them.
+
+//@ spec func noLine(o *OptionDefinition) bool = o.SourceLocation == nil || o.SourceLocation.StartLine == 0
+
+//@ func (optionsByLocation).Less
+//@   requires 0 <= i && i < len(o) && 0 <= j && j < len(o) && o[i] != nil && o[j] != nil
+//@   ensures byIndex: noLine(o[i]) || noLine(o[j]) ==> result == (descIndex(o[i].Desc) < descIndex(o[j].Desc))
+//@   ensures byLine: !(noLine(o[i]) || noLine(o[j])) ==> result == (o[i].SourceLocation.StartLine < o[j].SourceLocation.StartLine)
+
+// Map-typed option values are emitted in the order of their sorted key texts, not in the order
+// protoreflect.Map.Range happens to deliver them (which changes from run to run).
+//@ func walkOptionMap
+//@   opt panics allowed
+//@   assert at return#0 order: len(out.Children) == len(keys) && sortedStrs(keys)
+//@   loop 0 invariant len(out.Children) == $iter && sortedStrs(keys)
